@@ -174,16 +174,19 @@ CHECKS = {
     "C14": dict(
         text="Coq theorems: a newcomer's bitfield never takes the regular unchoked peers above ten (C14_bitfield_bound, counting lemma "
              "over the peer map); after every rotation over all connected peers, for every rate order (ties) and optimistic pick, at "
-             "most ten peers plus the new optimistic ones are unchoked (C14_rotation_bound, loop invariant + permutation argument). "
-             "The rotation's policy is decided by the correspondence: histories of up to 25 peers "
+             "most ten peers plus the new optimistic ones are unchoked (C14_rotation_bound, loop invariant + permutation argument); "
+             "every unchoked peer that is not a fresh optimistic pick has declared interest (C14_slots_interested); no peer left "
+             "choked although interested has a strictly better rate than a regular slot holder (C14_rate_order: the sort is "
+             "descending and the order splits into a slots-free and a slots-used part). "
+             "Tie: histories of up to 25 peers "
              "with bitfield arrivals, interest changes and rotations (rate orders with ties, optimistic pick as "
              "new_optimistic_peers) on the real Session; after every command the bound (10 + 1), after every rotation the policy "
              "and the exactness of the broadcast map are evaluated on the observed state. Genuine defect (every bitfield sender "
              "unchoked) found and repaired.",
-        note="Partial: the rotation's bound is proved (C14_rotation_bound, loop invariant over change_conn_state); its policy clauses and the "
-             "exactness of the broadcast map are decided by the correspondence oracle only. Not modelled: broadcast lag; the wrapper's "
+        note="The rotation's bound and both policy clauses are proved; the exactness of the broadcast map is decided by the correspondence "
+             "oracle only (it depends on new_optimistic_peers choosing among choked peers). Not modelled: broadcast lag; the wrapper's "
              "random optimistic pick (harness supplies it). No axioms.",
-        technique="Coq proof (counting lemma) + per-step differential correspondence with policy oracle",
+        technique="Coq proof (counting lemmas, loop invariants, sortedness) + per-step differential correspondence with policy oracle",
         design="2/C14"),
     "C18": dict(
         text="Coq theorems: percent-encoding then form-decoding is the identity on every byte string (C18_hash_roundtrip, 256-value and "
